@@ -92,12 +92,14 @@ theorem doReply_quiet (cfg : Cfg) (R : RespTab) (x : Conn) (r : Nat) (cl : Bool)
   · split
     · intro c; simp
     · split
-      · exact quiet_append (fun c => by simp) (closeConn_quiet _ _)
+      · intro c; simp
       · split
         · exact quiet_append (fun c => by simp) (closeConn_quiet _ _)
         · split
-          · intro c; simp
-          · exact quiet_append (fun c => by simp) (finishReply_quiet _ _)
+          · exact quiet_append (fun c => by simp) (closeConn_quiet _ _)
+          · split
+            · intro c; simp
+            · exact quiet_append (fun c => by simp) (finishReply_quiet _ _)
 
 theorem handleReq_quiet (cfg : Cfg) (R : RespTab) (x : Conn) : Quiet (handleReq cfg R x).2.2.2 := by
   unfold handleReq
@@ -739,5 +741,66 @@ theorem stop_empties (s : St) (hp : (stop s).1.fault ≠ some .stopSuspended) :
 theorem step_stop_eq (s : St) (h1 : s.shutdown = false) (h2 : s.fault = none) : step s .stop = stop s := by
   unfold step
   simp [h1, h2, Op.legal]
+
+
+
+theorem handleConn_closed (cfg : Cfg) (R : RespTab) (c : Conn) (h1 : c.req = none) (h2 : c.clientClosed = true) :
+    (handleConn cfg R c).2.2.1 = .clean := by
+  unfold handleConn handleReq
+  simp [h1, afterReq, h2]
+
+theorem handleList_allclosed (cfg : Cfg) (l : List Conn) : ∀ (acc : HAcc),
+    (∀ c ∈ l, c.req = none ∧ c.clientClosed = true) →
+    (handleList cfg acc l).kept = acc.kept ∧ (handleList cfg acc l).susp = acc.susp := by
+  induction l with
+  | nil => intro acc _; exact ⟨rfl, rfl⟩
+  | cons x rest ih =>
+    intro acc h
+    unfold handleList
+    have hx := h x (List.mem_cons_self ..)
+    have hk := handleConn_closed cfg acc.R x hx.1 hx.2
+    generalize handleConn cfg acc.R x = q at hk ⊢
+    obtain ⟨R1, c1, d, e⟩ := q
+    simp only at hk
+    subst hk
+    simp only
+    exact ih _ (fun c hc => h c (List.mem_cons_of_mem _ hc))
+
+/-- after every client has closed (no connection waiting, suspended or with an unanswered
+    request), one event-loop round disposes of every connection -/
+theorem round_closes_all (s : St) (h1 : s.newL = []) (h2 : s.susp = [])
+    (h3 : ∀ c ∈ s.active, c.req = none ∧ c.clientClosed = true) :
+    (round s).1.newL = [] ∧ (round s).1.active = [] ∧ (round s).1.susp = [] ∧ (round s).1.cleanup = [] := by
+  unfold round
+  have hr : (if s.cfg.allowSuspend then resumePass s else (s, [])).1.newL = [] ∧
+      (if s.cfg.allowSuspend then resumePass s else (s, [])).1.susp = [] ∧
+      (if s.cfg.allowSuspend then resumePass s else (s, [])).1.active = s.active := by
+    split
+    · unfold resumePass
+      split
+      · exact ⟨h1, h2, rfl⟩
+      · simp [h1, h2]
+    · exact ⟨h1, h2, rfl⟩
+  generalize (if s.cfg.allowSuspend then resumePass s else (s, [])) = r1 at hr ⊢
+  obtain ⟨a1, a2, a3⟩ := hr
+  have hp : processNew r1.1 = (r1.1, []) := by
+    unfold processNew; rw [a1]; simp only [List.reverse_nil, processList]
+    have : ({ r1.1 with newL := [] } : St) = r1.1 := by
+      cases hh : r1.1 with
+      | mk _ _ _ nl _ _ _ _ _ _ _ _ _ => rw [hh] at a1; simp at a1; subst a1; rfl
+    rw [this]
+  simp only
+  rw [hp]
+  simp only
+  have hc := cleanupAll_lists (handlePass r1.1).1
+  obtain ⟨c1, c2, c3, c4⟩ := hc
+  rw [c1, c2, c3, c4]
+  unfold handlePass
+  have hl := handleList_allclosed r1.1.cfg r1.1.active.reverse
+    { R := { tab := r1.1.resps, fault := none }, kept := [], clean := [], susp := [], evs := [] }
+    (fun c hc => h3 c (by rw [← a3]; exact List.mem_reverse.mp hc))
+  generalize handleList r1.1.cfg _ r1.1.active.reverse = acc at hl ⊢
+  simp only
+  exact ⟨a1, hl.1, by rw [hl.2, a2]; rfl, trivial⟩
 
 end Mhd.Limits
